@@ -1,11 +1,12 @@
 package props
 
 import (
-	"strings"
 	"fmt"
 	"go/constant"
 	"go/token"
+	"go/types"
 	"sort"
+	"strings"
 
 	"golang.org/x/tools/go/ssa"
 
@@ -42,64 +43,123 @@ func runC41(c *an.Ctx) {
 		k, isC := r.Results[0].(*ssa.Const)
 		return !isC || k.Value == nil || k.Value.Kind() != constant.Bool || constant.BoolVal(k.Value)
 	}
+	_ = isTrueRet
+	// "returns true" = first result may be true (evaluated in the state reaching the return)
+	trueSpec := func(fn *ssa.Function) an.RetSpec {
+		w := make([]an.Abs, fn.Signature.Results().Len())
+		w[0] = an.ATrue
+		return an.RetSpec{Want: w}
+	}
+	// private helpers verifyToken is split into: one that cannot return true unless a guard passed inside it is
+	// itself a guard at its call sites (decided bottom-up, A2 wrappers)
+	var helpers []*ssa.Function
+	for _, g := range an.InlineReach(vt) {
+		if g != vt && g != verifySig && g != getRoleFunc && g.Signature.Results().Len() >= 1 {
+			if b, isB := g.Signature.Results().At(0).Type().Underlying().(*types.Basic); isB && b.Kind() == types.Bool {
+				helpers = append(helpers, g)
+			}
+		}
+	}
+	withWrappers := func(g *an.Guard) []*an.Guard {
+		gs, names := an.DiscoverWrappers(helpers, []*an.Guard{g}, 4, nil)
+		if len(names) > 0 {
+			c.Note("wrappers|auth.verifyToken|"+g.Name, "helpers of verifyToken that return true only if the guard passed inside them", c.P.Rel(vt.Pos()), strings.Join(names, ", "))
+		}
+		return gs
+	}
 	sigGuard := an.GuardForFuncs("verifySig", funcObj(verifySig))
-	v := an.Guarded(c.P, vt, []*an.Guard{sigGuard}, isTrueRet, false)
-	c.Check(v.Holds && v.GuardSites == 1 && v.ActionSites >= 2, "guard|auth.verifyToken|verifySig", "verifyToken returns true only after the caller proved control of its key (verifySig true, no error)", c.P.Rel(vt.Pos()), v.Witness)
+	v := an.GuardedReturns(c.P, vt, []*an.Guard{sigGuard}, trueSpec(vt), false)
+	c.Check(v.Holds && v.GuardSites == 1 && v.ActionSites >= 1, "guard|auth.verifyToken|verifySig", "verifyToken returns true only after the caller proved control of its key (verifySig true, no error)", c.P.Rel(vt.Pos()), v.Witness)
 	cg := an.GuardForFuncs("ContainsFunc", contains)
-	v = an.Guarded(c.P, vt, []*an.Guard{cg}, isTrueRet, false)
+	v = an.GuardedReturns(c.P, vt, withWrappers(cg), trueSpec(vt), false)
 	c.Check(v.Holds && v.GuardSites >= 2, "guard|auth.verifyToken|ContainsFunc", "verifyToken returns true only on the edge where the role's function list contains the requested function", c.P.Rel(vt.Pos()), v.Witness)
-	expField := map[string]bool{"expireTime": true}
+	// the expiry operand: <elem>.expireTime, possibly handed to a helper as an argument
+	expiryOperands := func(x ssa.Value, ctx []*ssa.Call) []an.ValCtx { return an.DerefCtx(vt, x, ctx) }
+	isExpiryField := func(v ssa.Value) bool {
+		f := an.FieldOf(v)
+		if f == nil {
+			if u, isU := v.(*ssa.UnOp); isU && u.Op == token.MUL {
+				f = an.FieldOf(u.X)
+			}
+		}
+		return f != nil && f.Name() == "expireTime"
+	}
 	expired := &an.Guard{Name: "expireTime < now", FailValue: an.ATrue, MatchValue: func(v ssa.Value) bool {
 		b, ok := v.(*ssa.BinOp)
 		if !ok || b.Op != token.LSS {
 			return false
 		}
-		f := an.FieldOf(b.X)
-		if f == nil {
-			if u, isU := b.X.(*ssa.UnOp); isU && u.Op == token.MUL {
-				f = an.FieldOf(u.X)
+		ops := expiryOperands(b.X, nil)
+		if len(ops) == 0 {
+			return false
+		}
+		for _, o := range ops {
+			if !isExpiryField(o.V) {
+				return false
 			}
 		}
-		return f != nil && expField[f.Name()]
+		return true
 	}}
-	v = an.Guarded(c.P, vt, []*an.Guard{expired}, isTrueRet, false)
+	v = an.GuardedReturns(c.P, vt, withWrappers(expired), trueSpec(vt), false)
 	c.Check(v.Holds && v.GuardSites >= 2, "guard|auth.verifyToken|not-expired", "verifyToken never returns true for a token or delegation whose expiry time is before the current block time", c.P.Rel(vt.Pos()), v.Witness)
 	// the comparison is against native.Time
-	timeOK := 0
-	for _, b := range vt.Blocks {
-		for _, in := range b.Instrs {
-			if bo, ok := in.(*ssa.BinOp); ok && expired.MatchValue(bo) {
-				if f := fieldOfLoad(bo.Y); f != nil && f.Name() == "Time" {
-					timeOK++
-				}
-			}
-		}
-	}
-	c.Check(timeOK >= 2, "same-subject|auth.verifyToken|expiry-vs-block-time", "expiry is compared with the executing block's time (native.Time)", c.P.Rel(vt.Pos()), fmt.Sprintf("only %d comparisons against native.Time", timeOK))
-	// same subject: role looked up and expiry tested belong to the same element
-	pairs := 0
-	bad := ""
-	for _, k := range an.CallsTo(vt, funcObj(getRoleFunc)) {
-		args := argsNoRecv(k.Common())
-		roleBase := baseOfField(args[len(args)-1], "role")
-		if roleBase == nil {
-			bad = "role argument of getRoleFunc is not <elem>.role at " + c.P.Rel(k.Pos())
-			continue
-		}
-		found := false
-		for _, b := range vt.Blocks {
+	var expiryTests []*ssa.BinOp
+	timeBad := ""
+	for _, g := range an.InlineReach(vt) {
+		for _, b := range g.Blocks {
 			for _, in := range b.Instrs {
 				if bo, ok := in.(*ssa.BinOp); ok && expired.MatchValue(bo) {
-					if eb := baseOfField(bo.X, "expireTime"); eb != nil && an.AccessPath(eb) == an.AccessPath(roleBase) {
-						found = true
+					expiryTests = append(expiryTests, bo)
+					if f := fieldOfLoad(an.ResolveActual(vt, bo.Y)); f == nil || f.Name() != "Time" {
+						timeBad = c.P.Rel(bo.Pos())
 					}
 				}
 			}
 		}
-		if found {
-			pairs++
-		} else {
-			bad = "no expiry test on the element whose role is looked up at " + c.P.Rel(k.Pos())
+	}
+	c.Check(len(expiryTests) >= 1 && timeBad == "", "same-subject|auth.verifyToken|expiry-vs-block-time", "expiry is compared with the executing block's time (native.Time)", c.P.Rel(vt.Pos()), fmt.Sprintf("%d expiry tests; not against native.Time at %s", len(expiryTests), timeBad))
+	// same subject: role looked up and expiry tested belong to the same element (per call of the helper that does
+	// both, when they were moved into one)
+	ctxKey := func(ctx []*ssa.Call) string {
+		var s []string
+		for _, k := range ctx {
+			s = append(s, c.P.Rel(k.Pos()))
+		}
+		return strings.Join(s, ">")
+	}
+	pairs := 0
+	bad := ""
+	for _, k := range an.CallsToReach(vt, funcObj(getRoleFunc)) {
+		args := argsNoRecv(k.Common())
+		roles := an.DerefCtx(vt, args[len(args)-1], nil)
+		if len(roles) == 0 {
+			bad = "role argument of getRoleFunc cannot be resolved at " + c.P.Rel(k.Pos())
+		}
+		for _, rv := range roles {
+			roleBase := baseOfField(rv.V, "role")
+			if roleBase == nil {
+				bad = "role argument of getRoleFunc is not <elem>.role at " + c.P.Rel(k.Pos())
+				continue
+			}
+			found := false
+			for _, bo := range expiryTests {
+				if bo.Parent() != k.Parent() {
+					continue
+				}
+				for _, ev := range an.DerefCtx(vt, bo.X, nil) {
+					if ctxKey(ev.Ctx) != ctxKey(rv.Ctx) {
+						continue
+					}
+					if eb := baseOfField(ev.V, "expireTime"); eb != nil && eb.Parent() == roleBase.Parent() && an.AccessPath(eb) == an.AccessPath(roleBase) {
+						found = true
+					}
+				}
+			}
+			if found {
+				pairs++
+			} else {
+				bad = "no expiry test on the element whose role is looked up at " + c.P.Rel(k.Pos())
+			}
 		}
 	}
 	c.Check(pairs >= 2 && bad == "", "same-subject|auth.verifyToken|role-and-expiry", "the expiry tested is that of the token/delegation whose role grants the function", c.P.Rel(vt.Pos()), bad)
@@ -107,6 +167,14 @@ func runC41(c *an.Ctx) {
 	// expiry of a stored token/delegation is judged against the block time only
 	{
 		n, badSite := 0, ""
+		sitesOf := map[*ssa.Function][]ssa.CallInstruction{}
+		for _, fn := range c.P.RepoSrcFuncs(authPkg) {
+			for _, k := range an.Calls(fn) {
+				if callee := k.Common().StaticCallee(); callee != nil {
+					sitesOf[callee] = append(sitesOf[callee], k)
+				}
+			}
+		}
 		for _, fn := range c.P.RepoSrcFuncs(authPkg) {
 			for _, b := range fn.Blocks {
 				for _, in := range b.Instrs {
@@ -119,24 +187,62 @@ func runC41(c *an.Ctx) {
 					default:
 						continue
 					}
-					fx, fy := fieldOfLoad(bo.X), fieldOfLoad(bo.Y)
-					var other *typesVar
+					// an operand is a stored field either directly or as the argument a private helper was given
+					fieldsOf := func(v ssa.Value) []*typesVar {
+						if f := fieldOfLoad(v); f != nil {
+							return []*typesVar{f}
+						}
+						par, isP := v.(*ssa.Parameter)
+						if !isP {
+							return nil
+						}
+						var out []*typesVar
+						for _, s := range sitesOf[fn] {
+							for i, fp := range fn.Params {
+								if fp == par && i < len(s.Common().Args) {
+									out = append(out, fieldOfLoad(s.Common().Args[i]))
+								}
+							}
+						}
+						return out
+					}
+					fxs, fys := fieldsOf(bo.X), fieldsOf(bo.Y)
+					named := func(fs []*typesVar, name string) bool {
+						if len(fs) == 0 {
+							return false
+						}
+						for _, f := range fs {
+							if f == nil || f.Name() != name {
+								return false
+							}
+						}
+						return true
+					}
+					anyNamed := func(fs []*typesVar, name string) bool {
+						for _, f := range fs {
+							if f != nil && f.Name() == name {
+								return true
+							}
+						}
+						return false
+					}
+					var other []*typesVar
 					switch {
-					case fx != nil && fx.Name() == "expireTime":
-						other = fy
-					case fy != nil && fy.Name() == "expireTime":
-						other = fx
+					case anyNamed(fxs, "expireTime"):
+						other = fys
+					case anyNamed(fys, "expireTime"):
+						other = fxs
 					default:
 						continue
 					}
 					n++
-					if other == nil || other.Name() != "Time" {
+					if !named(other, "Time") {
 						badSite = c.P.Rel(bo.Pos()) + " in " + an.FuncName(fn)
 					}
 				}
 			}
 		}
-		c.Check(n >= 3 && badSite == "", "same-subject|auth|expiry-judged-against-block-time", "wherever a stored expireTime is compared directly, the other operand is the executing block's time (native.Time): entries are never dropped or honoured relative to any other time",
+		c.Check(n >= 2 && badSite == "", "same-subject|auth|expiry-judged-against-block-time", "wherever a stored expireTime is compared directly, the other operand is the executing block's time (native.Time): entries are never dropped or honoured relative to any other time",
 			"-", fmt.Sprintf("%d comparisons found; offending comparison at %s", n, badSite))
 	}
 
@@ -144,17 +250,29 @@ func runC41(c *an.Ctx) {
 	nativeCall := mustObj(c, "smartcontract/service/native.(*NativeService).NativeCall")
 	if nativeCall != nil {
 		ng := an.GuardForFuncs("NativeCall", nativeCall)
-		v := an.Guarded(c.P, verifySig, []*an.Guard{ng}, isTrueRet, false)
+		v := an.GuardedReturns(c.P, verifySig, []*an.Guard{ng}, trueSpec(verifySig), false)
 		c.Check(v.Holds && v.GuardSites == 1, "guard|auth.verifySig|NativeCall", "verifySig is true only if the call into the ONT ID contract succeeded", c.P.Rel(verifySig.Pos()), v.Witness)
+		isBytesCmp := func(v ssa.Value, name string) bool {
+			call, isC := v.(*ssa.Call)
+			return isC && call.Call.StaticCallee() != nil && call.Call.StaticCallee().String() == name
+		}
 		cmp := &an.Guard{Name: "ret == BYTE_TRUE", FailValue: an.AFalse, MatchValue: func(v ssa.Value) bool {
+			if isBytesCmp(v, "bytes.Equal") {
+				// used as a boolean itself (branched on or returned)
+				for _, r := range *v.Referrers() {
+					if b, isB := r.(*ssa.BinOp); isB && (b.Op == token.EQL || b.Op == token.NEQ) {
+						return false
+					}
+				}
+				return true
+			}
 			b, ok := v.(*ssa.BinOp)
 			if !ok || b.Op != token.EQL {
 				return false
 			}
-			call, isC := b.X.(*ssa.Call)
-			return isC && call.Call.StaticCallee() != nil && (call.Call.StaticCallee().String() == "bytes.Compare" || call.Call.StaticCallee().String() == "bytes.Equal")
+			return isBytesCmp(b.X, "bytes.Compare") || isBytesCmp(b.X, "bytes.Equal")
 		}}
-		v = an.Guarded(c.P, verifySig, []*an.Guard{cmp}, isTrueRet, false)
+		v = an.GuardedReturns(c.P, verifySig, []*an.Guard{cmp}, trueSpec(verifySig), false)
 		c.Check(v.Holds && v.GuardSites == 1, "guard|auth.verifySig|result-is-true", "verifySig is true only if verifySignature returned BYTE_TRUE", c.P.Rel(verifySig.Pos()), v.Witness)
 		okArgs := false
 		for _, k := range an.CallsTo(verifySig, nativeCall) {
